@@ -148,9 +148,11 @@ CONSTANTS
   MaxSweeps = 3
   ResumePermutes = {"TRUE" if resume_permutes else "FALSE"}
   AllowCrash = TRUE
+  UpdateAfterRebuild = TRUE
 INVARIANT BathShape
 INVARIANT CentreFollowsSweep
 INVARIANT OneFillPerStep
+INVARIANT DriveWritten
 INVARIANT ReturnedComplete
 INVARIANT ReturnedInRegisterOrder
 PROPERTY StepsInOrder
